@@ -134,7 +134,8 @@ CALLEE_USERS = ("C05", "C06", "C09", "C10", "C11", "C12", "C13", "C14", "C15", "
 
 #: properties decided by proofs about one subscription of one operator application: the frame condition that carries them to
 #: every subscription / application is checked for their own files (frame.run_local)
-STATE_ALLOCATION = ("C05", "C06", "C07", "C09", "C10", "C11", "C12", "C13", "C14", "C15", "C16", "C17", "C18", "C19", "C37", "C40")
+STATE_ALLOCATION = ("C05", "C06", "C07", "C09", "C10", "C11", "C12", "C13", "C14", "C15", "C16", "C17", "C18", "C19", "C24", "C35", "C37",
+                    "C38", "C40", "C41")
 
 
 #: operator contracts a property's lemma is stated over (proved under another property): re-proved inside this check as well
@@ -299,8 +300,6 @@ def units_for(prop, tier):
     if prop in STATE_ALLOCATION:
         us.append({"runner": "frame", "mode": "local", "prop": prop, "files": _property_files(prop), "id": f"state-allocation/{prop}"})
         # ... and about the implementation functions: the public entry points reach them with the very arguments (pubapi.py)
-        us.append({"runner": "pubapi", "prop": prop, "files": _property_files(prop), "id": f"public-entry-points/{prop}"})
-    elif prop in ("C24",):
         us.append({"runner": "pubapi", "prop": prop, "files": _property_files(prop), "id": f"public-entry-points/{prop}"})
     for u in us:
         u["tier"] = tier
